@@ -26,6 +26,7 @@ CLASSES = [
         name="Subject", props=["C20"], file=S + "subject.py", cls="Subject",
         fields=BASE_FIELDS, spec="specs.c20:subject", spec_fields=BASE_SPEC, inv=BASE_INV,
         methods=METHODS, imports=IMPORTS, also=ALSO, witness="Subject",
+        init=dict(args={}, spec={"state": 0, "obs": [], "err": None}),
     ),
     ClassContract(
         name="BehaviorSubject", props=["C21", "C08"], file=S + "behaviorsubject.py", cls="BehaviorSubject",
@@ -33,6 +34,7 @@ CLASSES = [
         spec_fields=dict(BASE_SPEC, value="val"),
         inv=BASE_INV + " and implies(s.state != 3, same(value, s.value))",
         methods=METHODS, imports=IMPORTS, also=ALSO + [(S + "subject.py", "Subject")], witness="BehaviorSubject",
+        init=dict(args={"value": "val"}, spec={"state": 0, "obs": [], "err": None, "value": "arg:value"}),
     ),
     ClassContract(
         name="AsyncSubject", props=["C23", "C08"], file=S + "asyncsubject.py", cls="AsyncSubject",
@@ -40,5 +42,6 @@ CLASSES = [
         spec_fields=dict(BASE_SPEC, value="val", has_value="bool"),
         inv=BASE_INV + " and implies(s.state != 3, has_value == s.has_value and implies(s.has_value, same(value, s.value)))",
         methods=METHODS, imports=IMPORTS, also=ALSO + [(S + "subject.py", "Subject")], witness="AsyncSubject",
+        init=dict(args={}, spec={"state": 0, "obs": [], "err": None, "value": None, "has_value": False}),
     ),
 ]
